@@ -304,7 +304,7 @@ theorem eventPut_eqX (o : Obj) (v : Val) :
 
 /-! ### constructors -/
 
-def collOf (c : Cfg) : Option Coll := c.allowed.map Coll.mk
+def collOf (c : Cfg) : Option Coll := c.allowed.map fun l => ⟨l, !l.isEmpty⟩
 
 /-- `_Validation.__init__`: schema and check are stored as given, `_allowed` is a frozenset COPY of
     the contents of the caller's collection (TypeError for an unhashable member), then the base -/
